@@ -26,6 +26,7 @@ type VC struct {
 	strs map[string]Term
 	tags map[string]int
 	preludeLen int
+	axLines map[int]axLine
 }
 
 func newVC(eng *Engine) *VC {
